@@ -103,6 +103,24 @@ PROPS = {
             "send back-pressure is switched off where 'at once' is judged (a connection task does nothing while the transport refuses to send)",
         ],
     ),
+    "C05": dict(
+        level="exploration",
+        level_text="Trace oracle over generated ACK/window histories produced by a scripted raw-uTP peer (instant delivery, so the "
+                   "window 'most recently advertised to it' is unambiguous): at every first transmission of a sequence number, "
+                   "outstanding bytes vs the advertised window (outside loss episodes), no new payload after a processed zero "
+                   "window, the slow-start bound 2*S + acknowledged bytes before the first loss event, and one segment per timer "
+                   "expiry with no new payload in the peer's silent phase. The sender's knowledge (ACKs, SACKs, window, proven "
+                   "segment size, loss episodes) is reconstructed from the wire alone.",
+        level_note=SIM_NOTE + "; the scripted peer (harness/src/peer.rs) and the wire-level sender model (harness/src/mon/sender.rs)",
+        technique="runtime monitoring: scripted-peer stimulus + wire-trace oracle on every first transmission",
+        budget=dict(quick=200, thorough=2400),
+        require=["c05_first_transmissions_checked", "c05_window_bound_checked", "c05_slow_start_bound_checked", "c05_timeout_sends_checked"],
+        rule="a case is one generated (socket configuration, write pattern, peer policy: ACK mode, pretended losses, window mode "
+             "const/walk/zero-then-open/shrink, silence) script; non-trivial = more than 2 first transmissions were judged; "
+             "distinct = distinct normalised wire trace hash",
+        assumptions=["size-probe expiry is not counted as a retransmission timeout (the library deliberately does not treat it as congestion)",
+                     "a data packet sent with neither a packet handed over nor an application write at that instant is taken to be the timeout path"],
+    ),
     "C09": dict(
         level="exploration",
         level_text="Two oracles. Arithmetic: the real seq_nr_offset / SeqNr ordering against true modular distance for every pair "
